@@ -151,6 +151,9 @@ func ToValue(n wire.Node) ttlv.Value {
 		v.Value = time.Duration(n.Int) * time.Second
 	case wire.Structure:
 		s := ttlv.Struct{}
+		if len(n.Children) == 0 && n.Tag%2 == 1 {
+			s = nil // an empty structure held as a nil Struct (var s ttlv.Struct) is still an empty structure
+		}
 		for _, c := range n.Children {
 			s = append(s, ToValue(c))
 		}
